@@ -222,6 +222,20 @@ func streamScope(o *Out, r *rand.Rand, n int, thorough bool) {
 		{"s = \"ab\"\ntry {\ns[1] = \"B\"\n} catch e {\n}\nfunc() { s[0] = \"A\" }()\nprobe(s)", vals.Encode("AB")},
 		{"a = [1]\nfunc grow() {\nfor {\na[len(a)] = 2\nbreak\n}\n}\ngrow()\nswitch 1 {\ncase 1:\na[len(a)] = 3\n}\nprobe(a)", vals.Encode([]interface{}{int64(1), int64(2), int64(3)})},
 		{"g = probe\nfunc call2() { return g(5) }\ncall2()\ng = func(v) { return v + 1 }\nprobe(call2())", vals.Encode(int64(6))},
+		// a var statement with several names evaluates ALL its right sides in the bindings that held before it, then binds
+		{"a = 1\nb = 2\nif true {\nvar a, b = b, a\nprobe([a, b])\n}", vals.Encode([]interface{}{int64(2), int64(1)})},
+		{"func f(x, y) {\nvar x, y = x + y, x * 10\nreturn [x, y]\n}\nprobe(f(3, 4))", vals.Encode([]interface{}{int64(7), int64(30)})},
+		{"n = 5\nfunc g() {\nvar n, got = 50, func() { return n }()\nreturn [n, got]\n}\nprobe(g())", vals.Encode([]interface{}{int64(50), int64(5)})},
+		{"c = \"outer\"\nr = nil\nfunc h() {\ntry {\nvar c, d = \"inner\", nosuch\n} catch e {\nr = c\n}\n}\nh()\nprobe(r)", vals.Encode("outer")},
+		{"c = \"outer\"\nfunc h2() {\nvar r = nil\nfor k in [1] {\ntry {\nvar c, d, e2 = \"inner\", probe(1), nosuch\n} catch e {\n}\nr = c\n}\nreturn r\n}\nprobe(h2())", vals.Encode("outer")},
+		{"x = 1\ny = 2\nz = 3\nfunc sw() {\nvar x, y, z = z, x, y\nreturn [x, y, z]\n}\nprobe([sw(), x, y, z])", vals.Encode([]interface{}{[]interface{}{int64(3), int64(1), int64(2)}, int64(1), int64(2), int64(3)})},
+		// the variable of a for-in loop is bound afresh for every element, whatever the body did to that name, for typed slices as for lists
+		{"ts = make([]int64, 4)\nfor j = 0; j < 4; j++ {\nts[j] = j\n}\nseen = []\nfor i in ts {\nseen += i\nif i == 1 {\ni = 10\n}\n}\nprobe(seen)", vals.Encode([]interface{}{int64(0), int64(1), int64(2), int64(3)})},
+		{"ts = make([]string, 3)\nts[0] = \"a\"\nts[1] = \"b\"\nts[2] = \"c\"\nseen = []\nfor s in ts {\nseen += s\nvar s = \"shadow\"\n}\nprobe(seen)", vals.Encode([]interface{}{"a", "b", "c"})},
+		{"seen = []\nfor i in [0, 1, 2, 3] {\nseen += i\nif i == 1 {\ni = 10\n}\n}\nprobe(seen)", vals.Encode([]interface{}{int64(0), int64(1), int64(2), int64(3)})},
+		{"tf = make([]float64, 3)\ntf[1] = 1.5\ntf[2] = 2.5\nt = 0\nfor v in tf {\nt += v\nv = 100\n}\nprobe(t)", vals.Encode(float64(4))},
+		{"tb = make([]bool, 3)\ntb[2] = true\nn = 0\nfor q in tb {\nif q {\nn++\n}\nq = true\n}\nprobe(n)", vals.Encode(int64(1))},
+		{"ts = make([]int64, 3)\nts[0] = 5\nts[1] = 6\nts[2] = 7\nseen = []\nfor i in ts {\nseen += i\ndelete(\"i\")\n}\nprobe(seen)", vals.Encode([]interface{}{int64(5), int64(6), int64(7)})},
 	}
 	for _, c := range closureCases {
 		stmt, err := parser.ParseSrc(c.src)
